@@ -316,6 +316,66 @@ def collect_orders(node, out, fn=None):
     for c in node.get('inner', []):
         collect_orders(c, out, fn)
 
+# ---- order of failure-relevant effects of the resize paths (gen/EffectOrder.v)
+PATTERNS = [   # (effect constructor, regex) - first match at a position wins; order of the list = priority
+    ('LockAll',        r'\block_all\s*\('),
+    ('Validate',       r'\bcheck_resize_validity\s*<'),
+    ('MigrateAll',     r'\brehash_lock\s*<\s*kIsNotLazy\s*>|(?<![\w.])rehash_with_workers\s*\(\s*\)'),
+    ('AllocBuckets',   r'\bbuckets_t\s+\w+\s*\('),
+    ('AllocTempMap',   r'\bcuckoohash_map\s+\w+\s*\('),
+    ('FillTempMap',    r'\bparallel_exec\s*\('),
+    ('FinishTempMap',  r'\bnew_map\s*\.\s*rehash_with_workers\s*\('),
+    ('ReadBuckets',    r'\bis\s*>>\s*\w+'),
+    ('ReadScalar',     r'\bis\s*\.\s*read\s*\('),
+    ('SetLimits',      r'\blt\s*\.\s*(?:minimum_load_factor|maximum_hashpower)\s*\('),
+    ('GrowLocks',      r'\bmaybe_resize_locks\s*\('),
+    ('SwapBuckets',    r'\bold_buckets_\s*\.\s*swap\s*\(|\bbuckets_\s*\.\s*swap\s*\(|\bbuckets\(\)\s*\.\s*swap\s*\(|\bswap\s*\(\s*lt\.buckets'),
+    ('AssignBuckets',  r'\bbuckets_\s*=\s*std::move'),
+    ('SetPending',     r'\bnum_remaining_lazy_rehash_locks\s*\(\s*\w'),
+    ('Bump',           r'\bresize_counter_\s*\.\s*fetch_add|\bbump_resize_counter\s*\('),
+]
+
+def find_fn(node, name, out):
+    if isinstance(node, dict):
+        if node.get('name') == name and node.get('kind') in ('FunctionTemplateDecl', 'CXXMethodDecl', 'FunctionDecl'):
+            out.append(node)
+        for c in node.get('inner', []):
+            find_fn(c, name, out)
+
+def fn_body(n):
+    if n.get('kind') == 'CompoundStmt': return n
+    for c in n.get('inner', []):
+        b = fn_body(c)
+        if b: return b
+
+def strip_comments(text):
+    # keep offsets: replace comment characters by spaces
+    def blank(m): return re.sub(r'[^\n]', ' ', m.group(0))
+    text = re.sub(r'//[^\n]*', blank, text)
+    return re.sub(r'/\*.*?\*/', blank, text, flags=re.S)
+
+def effects_of(objs, src, fname):
+    for o in objs:
+        out = []
+        find_fn(o, fname, out)
+        for x in out:
+            b = fn_body(x)
+            if b and b['range']['begin'].get('offset') is not None:
+                lo, hi = b['range']['begin']['offset'], b['range']['end']['offset']
+                text = strip_comments(src[lo:hi + 1])
+                hits = []
+                for (eff, rx) in PATTERNS:
+                    for m in re.finditer(rx, text):
+                        hits.append((m.start(), eff))
+                hits.sort()
+                seq, last = [], -1
+                for pos, eff in hits:
+                    if pos == last: continue
+                    seq.append(eff); last = pos
+                return seq
+    raise Untranslatable('function body of %s not found' % fname)
+
+
 def main():
     repo = sys.argv[1]
     outdir = sys.argv[2]
@@ -394,7 +454,19 @@ def main():
     mo.append(';\n'.join(rows))
     mo.append('].')
     open(os.path.join(outdir, 'MemOrders.v'), 'w').write('\n'.join(mo) + '\n')
-    print('translated %d functions, %d constants, %d atomic sites' % (len(FUNCS), len(CONSTS) + len(NSCONSTS), len(sites)))
+    # order of effects of the resize paths
+    src = open(os.path.join(repo, 'libcuckoo', 'cuckoohash_map.hh')).read()
+    eo = ['(* GENERATED by tools/cxx2coq.py: failure-relevant effects of the resize paths, in source order (function-body',
+          '   ranges from clang\'s AST, effects recognised by name) *)',
+          'From Coq Require Import List.', 'Import ListNotations.',
+          'Inductive effect := ' + ' | '.join(e for (e, _) in PATTERNS) + '.']
+    for (cname, fname) in (('fast_double_effects', 'cuckoo_fast_double'), ('expand_simple_effects', 'cuckoo_expand_simple'), ('stream_in_effects', 'operator>>')):
+        seq = effects_of(objs, src, fname)
+        if not seq:
+            raise Untranslatable('no effects recognised in ' + fname)
+        eo.append('Definition %s : list effect := [%s].' % (cname, '; '.join(seq)))
+    open(os.path.join(outdir, 'EffectOrder.v'), 'w').write('\n'.join(eo) + '\n')
+    print('translated %d functions, %d constants, %d atomic sites, 3 effect orders' % (len(FUNCS), len(CONSTS) + len(NSCONSTS), len(sites)))
 
 if __name__ == '__main__':
     try:
